@@ -86,6 +86,10 @@ def relation_residual(from_type, m_in, to_type, m_out, z0):
     L, R = lr[:n], lr[n:]
     res = L - m_out @ R
     scale = np.abs(L) + np.abs(m_out) @ np.abs(R)
+    # an entry whose terms are all structural zeros (or their rounding
+    # residue) is judged against the size of the whole relation
+    top = float(np.max(scale)) if scale.size else 0.0
+    scale = np.maximum(scale, 1e-3 * top)
     scale = np.where(scale == 0, 1.0, scale)
     return float(np.max(np.abs(res) / scale))
 
@@ -116,9 +120,20 @@ def sensitivity(fn, x, trials=3, rel=1e-8, rng=None):
     x = np.asarray(x, dtype=complex)
     y0 = np.asarray(fn(x))
     d = np.zeros(y0.shape)
+    # entries that are exactly zero get a perturbation of the size of the
+    # largest entry instead: elimination with pivoting is backward stable in
+    # the norm, not entry by entry, so a structural zero of the input (a
+    # lossless network, uncoupled ports) comes back as rounding noise of
+    # that size and structural zeros of the result are not preserved
+    scale = float(np.max(np.abs(x))) if x.size else 0.0
+    zero = (np.abs(x) <= 1e-10 * scale)
     for _ in range(trials):
         p = rng.standard_normal(x.shape) + 1j * rng.standard_normal(x.shape)
-        y = np.asarray(fn(x * (1.0 + rel * p)))
+        xp = x * (1.0 + rel * p)
+        if scale > 0 and np.any(zero):
+            q = rng.standard_normal(x.shape) + 1j * rng.standard_normal(x.shape)
+            xp = xp + rel * scale * q * zero
+        y = np.asarray(fn(xp))
         with np.errstate(invalid="ignore"):
             d = np.maximum(d, np.abs(y - y0) / rel)
     return y0, d
